@@ -28,12 +28,20 @@ def splitEvs (evs : List Ev) : List Sent × List String :=
 
 /-- STREAM_DATA from `peer` with stream id `id`, payload sealed under the key of exit tunnel `serial`
     (a serial that belongs to no tunnel = undecryptable payload). -/
-def Node.data (n : Node) (peer id serial : Nat) (payload : String := "") : Node × List Sent × List String :=
+def Node.data (n : Node) (peer id serial : Nat) (payload : String := "") (fin : Bool := false) :
+    Node × List Sent × List String :=
   match n.a.tcp.route peer id with
   | some (q, j) => (n, [⟨q, "data", j, payload⟩], [])
   | none =>
-    let (ex', evs) := n.ex.data id peer serial
-    ({ n with ex := ex' }, splitEvs evs)
+    -- exit handler: payload first (len(data) == 0: nothing to decrypt or write), then FIN_WRITE shuts the
+    -- write side of the destination socket of the record that is (still) stored under the id
+    let (ex1, evs) := if payload.startsWith "-" then (n.ex, []) else n.ex.data id peer serial
+    let ex2 := if fin then
+        (match ex1.conns.get id with
+         | some c => { ex1 with wclosed := c.serial :: ex1.wclosed }
+         | none => ex1)
+      else ex1
+    ({ n with ex := ex2 }, splitEvs evs)
 
 /-- STREAM_CLOSE / STREAM_RESET. -/
 def Node.close (n : Node) (what : String) (peer id : Nat) : Node × List Sent × List String :=
